@@ -178,6 +178,27 @@ Theorem c04_cpp_des_ptr_in_bounds : forall capB t prior buf, wf_ty t = true -> l
 Proof. exact cpp_des_ptr_in_bounds. Qed.
 Print Assumptions c04_cpp_des_ptr_in_bounds.
 
+(* zero runs of the C++ serializer (void fields): every byte access of bitspan::setZeros, as scanned from the support header, lies
+   inside the footprint [off/8, ceil((off+len)/8)) that the log entry of a zero run states - for every offset and length; so a store
+   that ends at the end of an exactly-sized buffer touches nothing behind it *)
+Theorem c04_cpp_setzeros_footprint : forall off len, 1 <= len ->
+  forallb (zacc_in off len) tpl_cpp_setzeros_accesses = true.
+Proof.
+  intros off len Hl. unfold tpl_cpp_setzeros_accesses. cbn [forallb].
+  unfold zacc_in, zrange, zidx_val, zlenceil, bytes_hi. cbn [fst snd].
+  repeat (apply andb_true_intro; split); try reflexivity; apply Nat.leb_le;
+    try (pose proof (Nat.div_mod_eq off 8); pose proof (Nat.mod_upper_bound off 8 ltac:(lia)));
+    try (apply Nat.div_le_lower_bound; lia); try lia.
+Qed.
+Print Assumptions c04_cpp_setzeros_footprint.
+
+(* ... and the modelled primitive (Prims/CppPrims.setZeros, C14) is defined on a buffer that ends exactly where the run ends *)
+Theorem c04_cpp_zero_run_tight : forall (data : bytes) (off len : nat), bytes_ok data -> fits data -> 1 <= len ->
+  length data = bytes_hi (off + len) ->
+  exists r, setZeros (mkspan data (blen data) (N.of_nat off)) (N.of_nat len) = Some (inl r).
+Proof. exact cpp_zero_run_tight. Qed.
+Print Assumptions c04_cpp_zero_run_tight.
+
 (* vector: EVERY path through the scanned statements of _deserialize_variable_length_array replaces the contents by the decoded
    elements, whatever the vector held, allocates only after the length check and never pushes an empty temporary *)
 Theorem c04_vla_replaced_not_appended : forall p, In p tpl_cpp_vla_paths ->
